@@ -128,6 +128,22 @@ pub fn run_case(ctx: &mut Ctx, _fam: &str, _k: u64, r: &mut Rng) {
         let (out_ref, _) = forward_ref::<f64>(&spec, &pb, &it.input).unwrap();
         // a diverging run (large learning rate on an unbounded net) leaves the in-domain value range: stop observing
         let pmax = pb.iter().map(|p| p.max_abs()).fold(0.0f64, f64::max);
+        // saturation: once a pre-activation leaves [-100, 100] the exponentials of sigmoid/softmax (and the squares in
+        // the quotient's derivative) leave the range in which every term of the gradient is representable
+        let mut x = it.input.clone();
+        let mut saturated = false;
+        for (li, l) in spec.layers.iter().enumerate() {
+            if let Some((pre, out)) = layer_ref(l, &pb[2 * li], &pb[2 * li + 1], &x) {
+                if !(pre.max_abs() <= 100.0) {
+                    saturated = true;
+                }
+                x = out;
+            }
+        }
+        if saturated {
+            ctx.count("histories_stopped_when_saturating", 1);
+            return;
+        }
         if !loss.is_finite() || !(out_ref.max_abs() < 1e6) || !(pmax < 1e6) || grads.iter().flatten().any(|g| !(g.abs() < 1e9)) {
             ctx.count("histories_stopped_when_diverging", 1);
             return;
@@ -146,6 +162,9 @@ pub fn run_case(ctx: &mut Ctx, _fam: &str, _k: u64, r: &mut Rng) {
             return;
         }
         let mult = if it.double_backward { 2.0 } else { 1.0 };
+        if ctx.verbose {
+            eprintln!("iteration {} double={} input {:?} {:?}\n target {:?}\n params {:?}\n out_ref {:?}\n out_obs {:?}\n loss_ref {} loss_obs {}\n grads_ref {:?}\n grads_obs {:?}", t, it.double_backward, it.input.dims, it.input.v, it.target.v, pb.iter().map(|p| p.v.clone()).collect::<Vec<_>>(), out_ref.v, run.outputs[t].vals, loss, run.losses[t], grads, before.iter().map(|b| b.grad.as_ref().map(|g| g.vals.clone())).collect::<Vec<_>>());
+        }
         for (i, b) in before.iter().enumerate() {
             let g = match &b.grad {
                 Some(g) => g,
